@@ -59,6 +59,8 @@ static std::shared_ptr<Rest::Router> make_router() {
     reg(Http::Method::Get, "GET"); reg(Http::Method::Post, "POST"); reg(Http::Method::Put, "PUT"); reg(Http::Method::Delete, "DELETE");
     reg(Http::Method::Patch, "PATCH"); reg(Http::Method::Options, "OPTIONS");
     r->addRoute(Http::Method::Head, "/only-head", [](const Rest::Request req, Http::ResponseWriter w) { return handle(req, std::move(w), "HEAD"); });
+    // a large answer (n KiB): the client that asked for it leaves while most of it is still queued
+    r->addRoute(Http::Method::Get, "/blob/:n", [](const Rest::Request req, Http::ResponseWriter w) { g_handled++; size_t n = (size_t)req.param(":n").as<int>() * 1024; w.send(Http::Code::Ok, std::string(n, 'b')); return Rest::Route::Result::Ok; });
     r->addRoute(Http::Method::Get, "/only-get", [](const Rest::Request req, Http::ResponseWriter w) { return handle(req, std::move(w), "GET"); });
     return r;
 }
@@ -112,6 +114,15 @@ static void churn_loop(int port, int id, int nconn, uint64_t seed, bool tolerate
             c.send_all("GET " + path + " HTTP/1.1\r\nHost: x\r\nConnection: keep-alive\r\nContent-Length: 0\r\n\r\n");
             if (r.chance(1, 2)) c.rst_close(); else c.close_now();
             count("abandoned_requests");
+            continue;
+        }
+        if (r.chance(1, 6)) {
+            // asks for 512 KiB and leaves at once: the end of its input and the writability of its socket reach the worker in one event,
+            // while the acceptor is busy handing the freed descriptor number to the next connection
+            c.send_all("GET /blob/512 HTTP/1.1\r\nHost: x\r\nConnection: keep-alive\r\nContent-Length: 0\r\n\r\n");
+            if (r.chance(1, 2)) { std::string t; c.read_some(t, 2, 4096); }
+            if (r.chance(1, 2)) c.rst_close(); else c.close_now();
+            count("abandoned_large_answers");
             continue;
         }
         std::string buf; size_t off = 0;
@@ -225,7 +236,7 @@ static void run_config(long idx, int workers, int clients, int nreq, int shutdow
 
 int main(int argc, char** argv) {
     g_opts = parse_opts(argc, argv);
-    install_handlers(false);
+    install_handlers(g_opts.get("prop", "c09") == "storm");   // (the storm stage runs without a sanitizer: a crash must name the round)
     // warm-up: runtime helper threads (sanitizer background thread, resolver) exist before the baseline is taken
     { std::thread t([] {}); t.join(); lv::Conn c; c.open_to(1); lv::msleep(50); }
     Rng r(g_opts.seed * 4001 + (uint64_t)g_opts.shard);
